@@ -433,7 +433,9 @@ Inductive xop :=
 | Pop (i : Z)
 | Remove (x : item)
 | Reverse
-| Clear.
+| Clear
+| ExtendSelf      (* seq.extend(seq): `if val is self: val = list(val)` - the CURRENT list is the argument *)
+| IAddSelf.       (* seq += seq  (__iadd__ = extend) *)
 
 (* new state, and: error class / returned item (pop) / nothing *)
 Definition xstep (s : st) (o : xop) : st * res (option item) :=
@@ -446,6 +448,7 @@ Definition xstep (s : st) (o : xop) : st * res (option item) :=
   | Remove x => lift (remove s x)
   | Reverse => lift (reverse s)
   | Clear => lift (clear s)
+  | ExtendSelf | IAddSelf => lift (extend s (items s))
   end.
 
 Definition xrun (s : st) (ops : list xop) : st := fold_left (fun s o => fst (xstep s o)) ops s.
